@@ -159,7 +159,7 @@ def build_universe(seed, tier):
         h = gen_history(rng, g, hid, extra_fns)
         U_hist.append(h)
         for j, t in enumerate(h["types"]):
-            roots.append({"ty": t, "vals": None, "tags": {"hist"}, "hist": (hid, j)})
+            roots.append({"ty": t, "vals": None, "tags": {"hist"}, "hist": (hid, j), "curver": j})
     items += g.items
     for h in U_hist:
         items += h["types"]
